@@ -10,6 +10,13 @@ CORE_SRC = sim/core.cpp sim/gompsim.cpp sim/probe.cpp sim/oracles.cpp sim/gen.cp
 WORLD_SRC = sim/w_morton.cpp sim/w_periodic.cpp sim/w_hilbert.cpp sim/w_specx.cpp sim/w_starpu.cpp sim/w_numeric.cpp
 SRC = $(CORE_SRC) $(WORLD_SRC)
 
+# content stamp of the library sources: objects are rebuilt when the CONTENT of any file under $(REPO)/src changes, even if a
+# file was restored with an old modification time (cp -p, rsync -a), which would fool make's timestamp comparison
+SRCHASH := $(shell find $(REPO)/src -type f -print0 2>/dev/null | sort -z | xargs -0 sha1sum 2>/dev/null | sha1sum | cut -c1-40)
+SRCSTAMP = $(BUILD)/.srcstamp-$(SRCHASH)
+$(SRCSTAMP):
+	@mkdir -p $(BUILD); rm -f $(BUILD)/.srcstamp-*; touch $@
+
 PLAIN_OBJ = $(patsubst sim/%.cpp,$(BUILD)/plain/%.o,$(SRC))
 ASAN_OBJ = $(patsubst sim/%.cpp,$(BUILD)/asan/%.o,$(SRC))
 
@@ -26,10 +33,10 @@ $(BUILD)/tbfsim_asan: $(ASAN_OBJ)
 $(BUILD)/plain/w_specx.o $(BUILD)/asan/w_specx.o: EXTRA = -Isim/stubs/specx
 $(BUILD)/plain/w_starpu.o $(BUILD)/asan/w_starpu.o: EXTRA = -Isim/stubs/starpu
 
-$(BUILD)/plain/%.o: sim/%.cpp Makefile
+$(BUILD)/plain/%.o: sim/%.cpp Makefile $(SRCSTAMP)
 	@mkdir -p $(dir $@)
 	$(CXX) $(PLAIN_FLAGS) $(EXTRA) -c $< -o $@
-$(BUILD)/asan/%.o: sim/%.cpp Makefile
+$(BUILD)/asan/%.o: sim/%.cpp Makefile $(SRCSTAMP)
 	@mkdir -p $(dir $@)
 	$(CXX) $(ASAN_FLAGS) $(EXTRA) -c $< -o $@
 
